@@ -20,6 +20,17 @@ static int ev_fd = 2;
 static pthread_mutex_t ev_mx = PTHREAD_MUTEX_INITIALIZER;
 static uint64_t ev_n = 0;
 atomic_int hx_violations = 0;
+/* a library that never stops talking (livelock) must not fill the disk or the oracle's memory: the log is capped, the run ends as a hang */
+size_t ev_max_bytes = 24u << 20;
+static size_t ev_bytes = 0;
+NOINST static void ev_account_locked(size_t k) {
+	ev_bytes += k;
+	if (ev_bytes > ev_max_bytes) {
+		static const char msg[] = "{\"n\":0,\"t\":0,\"e\":\"hang\",\"cycle\":0,\"why\":\"event-log-overflow (endless activity)\"}\n";
+		ssize_t w = write(ev_fd, msg, sizeof msg - 1); (void)w;
+		_exit(98);
+	}
+}
 
 NOINST void ev_open(const char *path) {
 	ev_fd = open(path, O_WRONLY | O_CREAT | O_TRUNC | O_APPEND, 0644);
@@ -46,6 +57,7 @@ NOINST void ev(const char *fmt, ...) {
 	buf[k++] = '}'; buf[k++] = '\n';
 	ssize_t off = 0;
 	while (off < k) { ssize_t w = write(ev_fd, buf + off, k - off); if (w <= 0) break; off += w; }
+	ev_account_locked((size_t)k);
 	__real_pthread_mutex_unlock(&ev_mx);
 }
 /* arbitrarily long body (snapshots) */
@@ -57,6 +69,7 @@ NOINST void ev_raw(const char *body) {
 	int k = snprintf(line, bl + 96, "{\"n\":%llu,\"t\":%d,%s}\n", (unsigned long long)n, hx_tid, body);
 	ssize_t off = 0;
 	while (off < k) { ssize_t w = write(ev_fd, line + off, k - off); if (w <= 0) break; off += w; }
+	ev_account_locked((size_t)k);
 	__real_pthread_mutex_unlock(&ev_mx);
 	free(line);
 }
@@ -520,6 +533,8 @@ NOINST void mon_thread_summary(void) {
 
 /* ------------------------------------------------------------------ virtual time */
 _Atomic int64_t vt_usec = 0;
+int vt_call_limit_s = 600;
+void mon_dump_log(int last);
 static const time_t vt_base = 1700000000;
 NOINST void vt_advance_us(int64_t us) { atomic_fetch_add(&vt_usec, us); }
 NOINST time_t __wrap_time(time_t *t) {
@@ -533,11 +548,22 @@ NOINST int __wrap_usleep(unsigned int us) {
 	case ROLE_AUTOFLUSH: __real_usleep(us > 1000 ? 1000 : us); return 0;
 	case ROLE_HEARTBEAT: __real_usleep(us > 1000 ? 1000 : us); return 0;
 	case ROLE_HARNESS: return __real_usleep(us);
-	default:
+	default: {
 		/* application thread inside start/stop/reset/enumeration: "let everything in flight settle, then time passes" */
 		bus_wait_quiescent(2000);
 		vt_advance_us(us);
-		return 0;
+		/* logical bound instead of a wall clock: a single call that sleeps through more than vt_call_limit virtual seconds (a start
+		 * takes about 3-10, a stop about 1) is polling for something that will never come - the call does not terminate */
+		static __thread const char *cur = NULL; static __thread int64_t slept = 0;
+		if (cur != hx_curcall) { cur = hx_curcall; slept = 0; }
+		slept += us;
+		if (vt_call_limit_s > 0 && slept > (int64_t)vt_call_limit_s * 1000000) {
+			mon_dump_all("virtual-time-limit");
+			mon_dump_log(30);
+			ev("\"e\":\"hang\",\"cycle\":0,\"why\":\"call %s slept through %d virtual seconds without returning\"", hx_curcall, vt_call_limit_s);
+			_exit(98);
+		}
+		return 0; }
 	}
 }
 
